@@ -15,7 +15,7 @@ import subprocess
 from . import lib
 
 M63 = (1 << 63) - 1
-PRELUDE = ("From Coq Require Import List ZArith.\nFrom AV Require Import Byods.TrRelModel.\n"
+PRELUDE = ("From Coq Require Import List ZArith.\nFrom AV Require Import Byods.TrRelModel.\nFrom AV Require Import Byods.TrRelFp.\n"
            "Import ListNotations.\nOpen Scope Z_scope.\n")
 
 # view layout of one version: (name, [readings], has is_empty slot)
@@ -115,7 +115,24 @@ def coq_batch(suite, keys, dom, cases, mode):
     return "map (fun h => %s(run_ter %s %d%%nat %d%%nat h)) %s" % (wrap, "true" if suite == "ter" else "false", keys, dom, hs)
 
 
+_FP_BUILT = [False]
+
+
+def ensure_fp_built():
+    """Byods/TrRelFp.v (fingerprints, tie only) is not in the closure of Props/C11.v: build it before evaluating cases"""
+    if _FP_BUILT[0]:
+        return
+    with lib.Lock("coq"):
+        lib.coq_makefile()
+        rc, out = lib.sh(["timeout", "900", "make", "Byods/TrRelFp.vo"], cwd=lib.COQ, timeout=960)
+    if rc:
+        raise lib.Infra("Byods/TrRelFp.v does not build:\n" + out[-2000:])
+    _FP_BUILT[0] = True
+
+
 def run_model(cases, mode="hist", tag="c11ds"):
+    ensure_fp_built()
+    tag = "%s_%d" % (tag, os.getpid())      # concurrent checks must not share case files
     """per case ('ok'|'err', steps, err step)"""
     groups = {}
     for i, c in enumerate(cases):
